@@ -42,6 +42,7 @@ from typing import Iterable
 
 import numpy as np
 import sympy as sym
+from sympy.printing.str import StrPrinter
 
 
 def numpy_to_blackbird(A, var_name):
@@ -110,6 +111,50 @@ def numpy_to_blackbird(A, var_name):
     return script
 
 
+class _BlackbirdPrinter(StrPrinter):
+    """Prints SymPy expressions in Blackbird syntax.
+
+    Differences to the default string form: the inverse trigonometric and
+    hyperbolic functions carry their Blackbird names (``arcsin``, not ``asin``),
+    and a negated power is written ``-1*x**2``, since in Blackbird the unary
+    minus binds tighter than ``**`` (``-x**2`` is ``(-x)**2``).
+    """
+
+    _function_names = {
+        "asin": "arcsin",
+        "acos": "arccos",
+        "atan": "arctan",
+        "asinh": "arcsinh",
+        "acosh": "arccosh",
+        "atanh": "arctanh",
+    }
+
+    def _print_Function(self, expr):
+        name = expr.func.__name__
+        return "{}({})".format(self._function_names.get(name, name), self.stringify(expr.args, ", "))
+
+    def _print_Mul(self, expr):
+        res = super()._print_Mul(expr)
+        if res.startswith("-"):
+            # find the end of the first factor; if it is a power, spell out the factor -1
+            depth = 0
+            for idx, char in enumerate(res[1:], start=1):
+                if char == "(":
+                    depth += 1
+                elif char == ")":
+                    depth -= 1
+                elif depth == 0 and char in "*/":
+                    if res[idx:idx + 2] == "**":
+                        return "-1*" + res[1:]
+                    break
+        return res
+
+
+def _sympy_to_blackbird(expr):
+    """Returns the Blackbird syntax of a SymPy expression (symbols are printed as they are)."""
+    return _BlackbirdPrinter().doprint(expr)
+
+
 def _expression_to_blackbird(expr):
     """Converts a SymPy expression containing free parameters to Blackbird syntax,
     by enclosing every parameter name in braces.
@@ -127,10 +172,10 @@ def _expression_to_blackbird(expr):
     """
     names = sorted(str(p) for p in expr.free_symbols)
     if not names:
-        return str(expr)
+        return _sympy_to_blackbird(expr)
 
     pattern = r"\b(" + "|".join(re.escape(n) for n in names) + r")\b"
-    return re.sub(pattern, r"{\1}", str(expr))
+    return re.sub(pattern, r"{\1}", _sympy_to_blackbird(expr))
 
 
 def _list_to_blackbird(values):
